@@ -11,10 +11,12 @@ from . import alpha, gamma, fsmon
 from .alpha import DAV, CALDAV, CARDDAV, CS, APPLE, INF, Interner
 from .world import World, git, make_bare_collection
 
+# cal1 and ab1 live at the paths of the *default* calendar / addressbook: a start with
+# --defaults creates them there when absent and must leave them alone otherwise
 SLOTS = {
-    "cal1": "/user/calendars/cal1",
+    "cal1": "/user/calendars/calendar",
     "cal2": "/user/calendars/cal2",
-    "ab1": "/user/contacts/ab1",
+    "ab1": "/user/contacts/addressbook",
 }
 HOMES = {"cal1": "/user/calendars", "cal2": "/user/calendars", "ab1": "/user/contacts"}
 
@@ -108,7 +110,7 @@ class DavSession:
         return b
 
     def cond(self, spec, c, n):
-        """spec: None | list of classes in {cur, stale, other, star, unq, garbage} -> (header, record)."""
+        """spec: None | list of classes in {cur, stale, other, star, unq, weak, garbage} -> (header, record)."""
         if not spec:
             return None, {"present": False, "star": False, "tags": []}
         vals = []
@@ -130,6 +132,11 @@ class DavSession:
                 e = oth[0] if oth else '"other-000000000000000000000000000000000"'
             elif cls == "unq":
                 vals.append((cur or '"x"').strip('"'))
+                continue
+            elif cls == "weak":
+                # the current etag as a weak validator: If-Match compares strongly (RFC 7232 3.1),
+                # so it lists no etag the resource could have (only used in If-Match)
+                vals.append("W/" + (cur or '"x"'))
                 continue
             elif cls == "garbage":
                 e = '"deadbeefdeadbeefdeadbeefdeadbeefdeadbeef"'
@@ -279,9 +286,10 @@ class DavSession:
         ev = {"op": "Proppatch", "c": c, "ins": ins}
         return self._record(ev, resp, {"m": "PROPPATCH", "path": path, "ops": [[p, v] for (p, v) in ops]})
 
-    def restart(self):
-        self.world.restart()
-        return self._record({"op": "Restart"}, None, {"m": "RESTART"})
+    def restart(self, defaults=False):
+        self.world.restart(defaults=defaults)
+        return self._record({"op": "Restart", "defaults": bool(defaults)}, None,
+                            {"m": "RESTART", "defaults": bool(defaults)})
 
     def lock(self, c, on=True):
         """Environment action: a stale .git/index.lock appears / disappears (tree stores)."""
@@ -409,7 +417,9 @@ class DavSession:
                 h = urllib.parse.unquote(x.href or "")
                 if h.rstrip("/") == base.rstrip("/"):
                     continue
-                out.append(h.rstrip("/").rsplit("/", 1)[-1])
+                name = h.rstrip("/").rsplit("/", 1)[-1]
+                # directory name -> slot name
+                out.append(next((c for c, sp in SLOTS.items() if sp == path + "/" + name), name))
         return sorted(out)
 
     def _audit_coll(self, c, full=True):
@@ -661,6 +671,16 @@ class DavSession:
         return self._audit_git_uncached(c, members, p)
 
     def _audit_git_uncached(self, c, members, p):
+        try:
+            return self._audit_git_cli(c, members, p)
+        except (RuntimeError, ValueError, IndexError) as exc:
+            # the git tools cannot read the repository: that is an observation (C09), not a
+            # failure of the machinery
+            return {"bare": False, "log": [], "tree": {}, "clean": False, "fsck": False, "cfg": 0,
+                    "linear": False, "skipped": False, "typed": self._typed(c),
+                    "status": ("git tools fail: %s" % exc)[:200]}
+
+    def _audit_git_cli(self, c, members, p):
         bare = not os.path.isdir(os.path.join(p, ".git"))
         info = {"bare": bare, "log": [], "tree": {}, "clean": True, "fsck": True, "cfg": 0,
                 "linear": True, "skipped": False, "status": "", "typed": False}
@@ -669,7 +689,7 @@ class DavSession:
         head = git(p, "rev-parse", "--verify", "-q", "HEAD", check=False)
         if head.returncode == 0:
             # all commits reachable from HEAD with parents, oldest first
-            out = git(p, "rev-list", "--parents", "--reverse", "HEAD").stdout.decode().split("\n")
+            out = git(p, "rev-list", "--parents", "--reverse", "HEAD", "--").stdout.decode().split("\n")
             prev = None
             for ln in out:
                 f = ln.split()
@@ -679,7 +699,7 @@ class DavSession:
                     info["linear"] = False
                 prev = f[0]
                 info["log"].append(self.K(f[0]))
-            ls = git(p, "ls-tree", "-r", "-z", "HEAD").stdout.split(b"\0")
+            ls = git(p, "ls-tree", "-r", "-z", "HEAD", "--").stdout.split(b"\0")
             ents = []
             for ent in ls:
                 if not ent:
